@@ -15,6 +15,7 @@ structure LS where
   labels : List Bytes
   val : Val
   timeNs : Int
+  oracle : List Bytes := []     -- fmt output for the value (and bucket bin names), from Go directly
 
 structure M where
   name : Bytes
@@ -55,7 +56,12 @@ def parseLS (s : String) : Option LS :=
   | [l, v, t] => do
     let labels ← parseTuple l
     let val ← parseVal v
-    pure ⟨labels, val, t.toInt!⟩
+    pure ⟨labels, val, t.toInt!, []⟩
+  | [l, v, t, o] => do
+    let labels ← parseTuple l
+    let val ← parseVal v
+    let orc ← parseTuple o
+    pure ⟨labels, val, t.toInt!, orc⟩
   | _ => none
 
 def parseMetric (s : String) : Option M :=
